@@ -473,12 +473,16 @@ def c09(rec):
         v["sig"] = sig
         out.append(v)
 
-    judge("sum_product", lambda: sum_product(plus, times, factors, elim, plates))
-    judge("partial", lambda: prod(partial_sum_product(plus, times, factors, elim, plates)))
+    scales = {p: int(s) for p, s in rec.get("scales", {}).items() if int(s) != 1}
+    kw = {"plate_to_scale": scales} if scales else {}
+    judge("sum_product", lambda: sum_product(plus, times, factors, elim, plates, **kw))
+    judge("partial", lambda: prod(partial_sum_product(plus, times, factors, elim, plates, **kw)))
     for e1 in rec["splits"]:
         e1 = frozenset(e1)
         judge("split", lambda: prod(partial_sum_product(
-            plus, times, partial_sum_product(plus, times, factors, e1, plates), elim - e1, plates)))
+            plus, times, partial_sum_product(plus, times, factors, e1, plates, **kw), elim - e1, plates, **kw)))
+    if scales:
+        return out     # the modified / dynamic variants and einsum take no plate scales
     p2s = {p: frozenset() for p in plates & elim}
     judge("modified", lambda: prod(modified_partial_sum_product(plus, times, factors, elim, p2s)))
     judge("dynamic", lambda: prod(dynamic_partial_sum_product(plus, times, factors, elim, p2s)))
